@@ -10,7 +10,7 @@ func init() { checks["C17"] = checkC17 }
 // C17: the extracted wf_check runs on the implementation's real tapes.
 func checkC17(c *Ctx) {
 	r := c.Rng
-	c.Ev.Coverage.Rule = "the Coq-extracted executable wf_check (root pairs, mutual container pointers, proper nesting, string flag/offset/length in range, number payload words, no other tags; NOP runs pointing at their end) is run on the implementation's real Tape/Strings/Message for every accepted document of the G1/G7/deep/wide/NDJSON streams in both string modes, on both kernels (tapes are also compared word for word with the model's), and on every tape obtained by deserializing a serialized (possibly edited) tape, also from a reused Serializer on 120 k (short, short+suffix) string pairs. non-trivial = accepted document; distinct = by input bytes"
+	c.Ev.Coverage.Rule = "the Coq-extracted executable wf_check (root pairs, mutual container pointers, proper nesting, string flag/offset/length in range, number payload words, no other tags; NOP runs pointing at their end) is run on the implementation's real Tape/Strings/Message for every document Parse/ParseND reports as accepted in the G1/G7/deep/wide/NDJSON streams and in streams of documents above the 8 KiB threshold (valid, unbalanced, stage-2-invalid at a chosen point, truncated) in both string modes, on both kernels (tapes are also compared word for word with the model's), and on every tape obtained by deserializing a serialized (possibly edited) tape, also from a reused Serializer on 120 k (short, short+suffix) string pairs. non-trivial = accepted document; distinct = by input bytes"
 	flags := ChkModel | ChkKernels | ChkNoPanic
 	var batch []PCase
 	nwf := 0
@@ -64,6 +64,19 @@ func checkC17(c *Ctx) {
 	}
 	for _, w := range []int{T_INDEX / 2, T_INDEX, 3 * T_INDEX} {
 		add("wide", []byte("["+strings.Repeat(`"s",`, w)+"0]"), false)
+	}
+	// documents above the 8 KiB threshold (stage 1 and stage 2 run concurrently there): valid
+	// ones, and ones only stage 2 can reject — whatever Parse reports as a success must
+	// carry a well-formed tape
+	for i := 0; i < c.N(24, 200); i++ {
+		add("big-valid", bigDoc(r, 1+r.Intn(3), 0), false)
+		add("big-stage2-invalid", bigDoc(r, 2+r.Intn(3), 1+r.Intn(2*T_INDEX)), false)
+	}
+	for _, d := range bigUnbalanced(r, c.N(24, 200)) {
+		add("big-unbalanced", d, false)
+	}
+	for _, d := range truncatedObjects(r, c.N(6, 40)) {
+		add("big-truncated", d, false)
 	}
 	flush()
 	c.Ev.Note(fmt.Sprintf("wf_check evaluated on %d real tapes", nwf))
